@@ -314,7 +314,7 @@ theorem stepTruncate_neg (h : H) (s : Store) (f : Int) (hm : h.mode ≠ .r) (hf 
 /-- the C compares `sf_seek`'s result with the requested position: −1 "succeeds" -/
 theorem stepTruncate_minus1 (h : H) (s : Store) (hm : h.mode ≠ .r) :
     stepTruncate h s (-1) =
-      if h.canTruncate then ({ h with error := E_BAD_SEEK, frames := -1 }, { s with bytes := s.bytes.take s.pos }, { ret := 0, err := 0 })
+      if h.canTruncate then ({ h with error := E_BAD_SEEK, frames := -1 }, { s with bytes := truncBytes s.bytes s.pos }, { ret := 0, err := 0 })
       else ({ h with error := 2, frames := -1 }, s, { ret := -1, err := 2 }) := by
   unfold stepTruncate
   simp only [stepSeek_eq_spec, seekSpec_set]
@@ -323,7 +323,7 @@ theorem stepTruncate_minus1 (h : H) (s : Store) (hm : h.mode ≠ .r) :
 theorem stepTruncate_ok (h : H) (s : Store) (f : Int) (hm : h.mode ≠ .r) (hf : 0 ≤ f) :
     stepTruncate h s f =
       if h.canTruncate then
-        ({ seekMoveH h 0 f with frames := f }, { bytes := s.bytes.take (defaultSeek h s f).pos, pos := (defaultSeek h s f).pos },
+        ({ seekMoveH h 0 f with frames := f }, { bytes := truncBytes s.bytes (defaultSeek h s f).pos, pos := (defaultSeek h s f).pos },
          { ret := 0, err := 0 })
       else ({ seekMoveH h 0 f with frames := f, error := 2 }, defaultSeek h s f, { ret := -1, err := 2 }) := by
   unfold stepTruncate
